@@ -187,7 +187,12 @@ def storm_arm(bld, tr, rng, root, F, tot):
         desc = "format %s, output %s, %d threads logging, every openat/read/connect delayed by %d us" % (ev["fname"], ev["out"], ev["threads"], ev["delay_us"])
         wit = {k: v for k, v in ev.items() if k != "stuck"}
         if ev["blocked"]:
-            stuck = ev["stuck"] or [(None, None, "")]
+            # a child counts as deadlocked only if its own stack (printed 3 s into the call) shows it waiting for a lock; a child
+            # that is merely slow on a loaded machine is inconclusive
+            stuck = [x for x in ev["stuck"] if "lll_lock_wait" in x[2] or "futex" in x[2] or "pthread_mutex_lock" in x[2]]
+            if not stuck:
+                tot["storm_inconclusive"] = tot.get("storm_inconclusive", 0) + 1
+                log("[C10] storm run with %d unfinished children but no lock wait on their stacks: inconclusive (%s)" % (ev["blocked"], desc))
             for libc_fn, sn_fn, bt in stuck[:3]:
                 F.violation("C10:storm:child-deadlock:%s-in-%s" % (libc_fn or "unknown", sn_fn or "unknown"),
                             "%d of %d children forked while other threads were logging never finished their own exec call (blocked in syscall %s); one is waiting in %s called from %s (%s)" % (
@@ -276,6 +281,8 @@ def main():
     rmwork(root2)
     if tot.get("storm_children_completed", 0) == 0 and F.n_unlisted() == 0:
         raise Harness("storm arm observed nothing: %s" % tot)
+    if tot.get("storm_inconclusive", 0) > max(2, tot.get("storm_runs", 0) // 10) and F.n_unlisted() == 0:
+        raise Harness("too many inconclusive storm runs: %s" % tot)
     if (tot["in_lock"] == 0 or tot["after_unlock"] == 0 or tot.get("at_io", 0) == 0) and F.n_unlisted() == 0:
         raise Harness("fork points not reached: %s" % tot)
     if (tot["inconclusive"] > max(2, tot["scenarios"] // 50)) and F.n_unlisted() == 0:
